@@ -178,8 +178,8 @@ def run_case(case):
         elif part == "pairs":
             rng = random.Random(case["seed"])
             for name in case["names"]:
-                if name in allowed_set or name.split(".")[0] in pymods:
-                    continue
+                if name in allowed_set or name.split(".")[0] in pymods or name.split(".")[0] in {a.split(".")[0] for a in allowed_set}:
+                    continue  # (a forbidden child of an allow-listed package would legitimately leave the parent bound by the partner import)
                 ok = rng.choice(sorted(a for a in allowed_set if a in ("json", "math", "re", "time", "datetime", "random", "string")))
                 for src in (f"import {ok}, {name}", f"import {name}, {ok}", f"exec('import {ok}, {name}')", f"import {ok}\nimport {name}", f"from {ok} import *\nfrom {name} import *"):
                     ps = await interp.run_pyscript(src)
